@@ -588,9 +588,11 @@ impl From<Vec<usize>> for Seq<text::Dna> {
 /// **Unstable** construct a `Seq` from a bitslice. This may change in the future.
 impl<A: Codec> From<&Bs> for Seq<A> {
     fn from(bs: &Bs) -> Self {
+        let mut bv: Bv = bs.into();
+        bv.force_align();
         Seq {
             _p: PhantomData,
-            bv: bs.into(),
+            bv,
         }
     }
 }
